@@ -552,10 +552,17 @@ theorem plan_uploadPartCopy (ap : Bool) (sb sk b k uid : Bytes) (part : Int) (c 
 theorem plan_listParts (b k uid : Bytes) :
     ∀ t ∈ (plan e enc (.listParts b k uid)).touches, P e enc (.listParts b k uid) t := by
   simp only [plan]
-  have h1 : P e enc (.listParts b k uid) ⟨.list, .path e.root⟩ := L_rootList hr rfl
-  have h2 : P e enc (.listParts b k uid) ⟨.read, .childrenPrefixed e.root (uploadPartPrefix uid)⟩ :=
-    L_children_parts hr fun n h => ⟨rfl, h⟩
-  touch_list <;> solve_by_elim
+  cases hpu : parseUuid uid with
+  | none => exact forall_nil
+  | some u =>
+    have hu := parseUuid_noSlash hpu
+    refine forall_withPath forall_nil fun info hinfo => ?_
+    have h0 : P e enc (.listParts b k uid) ⟨.read, .path info⟩ :=
+      L_name hr (good_uploadInfoName hu) ⟨u, hpu, rfl, .inl rfl⟩ hinfo
+    have h1 : P e enc (.listParts b k uid) ⟨.list, .path e.root⟩ := L_rootList hr rfl
+    have h2 : P e enc (.listParts b k uid) ⟨.read, .childrenPrefixed e.root (uploadPartPrefix u)⟩ :=
+      L_children_parts hr fun n h => ⟨u, hpu, rfl, .inr h⟩
+    touch_list <;> solve_by_elim
 
 theorem completeCheck_allowed {Q : Touch → Prop} (u : Bytes) (ps : List Int) :
     (∀ n ∈ ps, ∀ pp, uploadPartPath e u n = .ok pp → ∀ a, Q ⟨a, .path pp⟩) →
